@@ -26,7 +26,7 @@ def codecs():
     k.harnesses = [H(n, stubbing=True, timeout=600, desc='parse(to_string(v)) == v for every value', sample=n) for n in
                    ('enum_variation_roundtrip', 'macro_type_variation_roundtrip', 'alias_variation_roundtrip', 'non_copy_union_style_roundtrip', 'formatter_roundtrip', 'field_visibility_roundtrip', 'abi_roundtrip')]
     k.encoded = encd
-    k.stubs = ['-Z stubbing: core::slice::memchr::memchr -> naive loop']
+    k.stubs = ['-Z stubbing: core::slice::memchr::memchr -> naive loop', '-Z stubbing: alloc::fmt::format -> empty string (only the error arms of FromStr build messages; the message is not the subject)']
     k.assumptions = ['EnumVariation::NewType{is_bitfield:true,is_global:true} is not a configuration (Display prints it as "bitfield"; code generation ignores is_global for bit-field newtypes)',
                      'feature prettyplease off in the spliced crate (Formatter has two values)']
     k.bounds = ['all values of each enum; literals <= 20 bytes (unwind 24)']
